@@ -162,6 +162,101 @@ def run(ctx):
         concurrent_query_vs_analysis(ctx, vh, 400 if quick else 20000)
     finally:
         vh.close()
+    for h in range(1 if quick else 6):
+        server_close_and_eviction(ctx, h)
+
+
+LC_CONF = ("import pytest\n\n@pytest.fixture\ndef fa() -> int:\n    \"\"\"doc of fa\"\"\"\n    return 1\n\n"
+           "@pytest.fixture(scope=\"session\")\ndef fb() -> str:\n    return \"x\"\n")
+LC_DOC = ("import pytest\n\n@pytest.fixture\ndef local(fb):\n    return fb\n\n"
+          "def test_one(fb, local):\n    v = fa\n    return v\n\ndef test_two(local):\n    pass\n")
+
+
+def server_close_and_eviction(ctx, h):
+    """the same through the real server and every request kind: answers about an unchanged document before / after other
+    documents and the document itself are closed, and while > 2000 other documents are opened (eviction)"""
+    import json as _j
+    from ..lsp import LSP
+    from ..runner import srv_bin
+    root = ctx.scratch(f"srvclose{h}")
+    files = {"conftest.py": LC_CONF, "pkg/test_doc.py": LC_DOC, "pkg/__init__.py": ""}
+    for i in range(3):
+        files[f"pkg/test_keep{i}.py"] = LC_DOC.replace("test_one", f"test_k{i}")
+    write_tree(root, files)
+    docs = [os.path.join(root, "pkg/test_doc.py")] + [os.path.join(root, f"pkg/test_keep{i}.py") for i in range(3)]
+    conf = os.path.join(root, "conftest.py")
+    srv = LSP(srv_bin(), root, locklog=os.path.join(ctx.scratch_root, "lock_srv.log"))
+
+    def observe(d):
+        out = {}
+        text = files[os.path.relpath(d, root)]
+        lines = text.split("\n")
+        l_use = next(i for i, l in enumerate(lines) if l.strip() == "v = fa")
+        l_sig = next(i for i, l in enumerate(lines) if l.startswith("def test_") and "(fb, local)" in l)
+        diags = [x for x in (srv.diag.get(__import__("vlib.lsp", fromlist=["path_to_uri"]).path_to_uri(d), [(0, [])])[-1][1])]
+        reqs = {
+            "definition": srv.definition(d, l_sig, lines[l_sig].index("fb")),
+            "hover": srv.hover(d, l_sig, lines[l_sig].index("fb")),
+            "references": srv.references(d, 3, 4),
+            "documentSymbol": srv.document_symbol(d),
+            "codeLens": srv.code_lens(d),
+            "inlayHint": srv.inlay_hint(d),
+            "completion": srv.completion(d, l_use, 8),
+            "codeAction": srv.code_action(d, {"start": {"line": l_use, "character": 0}, "end": {"line": l_use, "character": 20}}, diags),
+        }
+        for k, r in reqs.items():
+            if not r["answered"]:
+                raise Inconclusive(f"{k} unanswered")
+            res = r.get("result")
+            if k == "completion" and isinstance(res, dict):
+                res = res.get("items")
+            if k == "completion" and res:
+                res = sorted((it["label"], it.get("detail")) for it in res)
+            out[k] = _j.dumps(res, sort_keys=True)
+        return out
+
+    def compare(tag, base, now):
+        ctx.judged()
+        bad = sorted(k for k in base if base[k] != now.get(k))
+        if bad:
+            ctx.violation({"kind": "answer-changes-after-close-or-eviction", "step": tag, "requests": bad},
+                          {k: {"before": base[k][:300], "after": now[k][:300]} for k in bad[:3]}, files=files)
+        ctx.nontrivial(("server_close", tag, not bad))
+
+    try:
+        srv.initialize()
+        for d in docs:
+            before = srv.seq
+            srv.did_open(d, files[os.path.relpath(d, root)])
+            srv.wait_diagnostics(d, before, timeout=20)
+        base = {d: observe(d) for d in docs}
+        if not base[docs[0]]["codeAction"] or base[docs[0]]["codeAction"] == "null" or base[docs[0]]["codeAction"] == "[]":
+            raise Inconclusive("no quick fix offered for the directed document: nothing to compare")
+        # the conftest is opened and closed again
+        before = srv.seq
+        srv.did_open(conf, LC_CONF)
+        srv.wait_diagnostics(conf, before, timeout=20)
+        srv.did_close(conf)
+        for d in docs:
+            compare("conftest opened and closed", base[d], observe(d))
+        # > 2000 other documents are opened while ours stay open
+        for i in range(2300 if h == 0 else 2600):
+            srv.did_open(os.path.join(root, f"filler/test_fill_{i}.py"), "def test_f():\n    pass\n")
+            if i % 10 == 0:
+                srv.pump(0.01)         # keep draining the server's notifications, or both pipes fill up
+        srv.document_symbol(docs[0])
+        for d in docs:
+            compare("2000+ other documents opened", base[d], observe(d))
+        # the document itself is closed (its text on disk is the same)
+        srv.did_close(docs[0])
+        compare("document closed", base[docs[0]], observe(docs[0]))
+        ctx.count("server_close_sessions")
+    finally:
+        un = srv.unanswered()
+        srv.shutdown()
+        shutil.rmtree(root, ignore_errors=True)
+        if un:
+            raise Inconclusive("server stopped answering")
 
 
 def run_eviction(ctx, vh, h):
